@@ -231,14 +231,18 @@ def _roundoff_through_discontinuity(src, new, feeds, scale, k, rel, abs_):
                     if node.op_type not in DISCONTINUOUS:
                         return None
                     inexact = False
-                    for x in node.input:
-                        if not x:
+                    # the node that produces the same-named value in M' (its inputs may have been renamed by the transformation)
+                    n2 = next((n for n in new.model.graph.node if o in n.output), None)
+                    if n2 is None or n2.op_type != node.op_type or len(n2.input) != len(node.input):
+                        return None
+                    for x, x2 in zip(node.input, n2.input):
+                        if not x and not x2:
                             continue
-                        if x not in r1 or x not in r2 or isinstance(r1[x], list):
+                        if x not in r1 or x2 not in r2 or isinstance(r1[x], list) or isinstance(r2[x2], list):
                             return None
-                        if same_array(r1[x], r2[x], scale, k, rel, abs_):
+                        if same_array(r1[x], r2[x2], scale, k, rel, abs_):
                             return None  # an input already differs beyond tolerance: not our first difference
-                        a1, a2 = np.asarray(r1[x]), np.asarray(r2[x])
+                        a1, a2 = np.asarray(r1[x]), np.asarray(r2[x2])
                         if a1.shape != a2.shape or a1.dtype != a2.dtype or a1.tobytes() != a2.tobytes():
                             inexact = True  # includes -0.0 vs +0.0, which the comparison rule treats as equal
                     return f"first difference at {node.op_type} output '{o}' whose inputs agree only up to round-off" if inexact else None
